@@ -70,7 +70,7 @@ def cliReq? : Sexp → Option Cli.Req
 def ofOptNat : Option Nat → Sexp := ofOpt ofNat
 
 def outcomeName : Cli.Outcome → String
-  | .running => "running" | .refused => "refused" | .crashed => "crashed" | .stuck => "stuck"
+  | .running => "running" | .stuck => "stuck"
 
 def c19 : Sexp → Option Sexp
   | .list [.atom "c19", sec, port, .list rq, .list sv] => do
